@@ -11,7 +11,8 @@ _T2 = ["blocklist_ladder_all", "blocklist_sound_all", "ref10_eq_spec", "impl_agr
 THEOREMS = vcore.theorems_in("SodiumModel/Properties/C05.lean", _T, "Sodium.C05") + vcore.theorems_in("SodiumModel/Properties/C05LowOrder.lean", _T2, "Sodium.C05")
 THEOREMS = THEOREMS + vcore.theorems_in("SodiumModel/Properties/C05Ladder.lean", ['ref10_ladder_general', 'ref10_ladder_eq_rfc7748', 'ref10_ladder_clamp', 'clamp_clamp', 'ref10_ladder_unclamped_differs', 'ref10_ladder_length', 'cswap_in_contract', 'ref10_mult_eq', 'ref10_eq_spec_ladder', 'ladder_any_field', 'edwards_to_montgomery_exact', 'ref10_base_exact', 'ref10_base_eq_rfc7748_partial'], "Sodium.C05Ladder")
 IMPORTS = ["SodiumModel.Properties.C05", "SodiumModel.Properties.C05LowOrder"] if THEOREMS else ["SodiumModel.Spec.Curve25519"]
-IMPORTS = IMPORTS + ["SodiumModel.Properties.C05Ladder"]
+THEOREMS = THEOREMS + vcore.theorems_in("SodiumModel/Properties/C05Fe51.lean", ['add_spec', 'sub_spec', 'sub_wrong_on_huge_g', 'mul_no_overflow', 'carry_chain_spec', 'mul_spec', 'mul_wrong_beyond_loose', 'sq_eq_mul', 'sq_spec', 'sq2_spec', 'sq2_wrong_on_loose', 'mul32_spec', 'neg_spec', 'cswap_spec', 'cswap_out_of_contract', 'cmov_spec', 'cmov_variants_differ_out_of_contract', 'frombytes_spec', 'reduce_spec', 'tobytes_spec', 'isnegative_spec', 'iszero_spec', 'invert_spec', 'spec_inv_eq_pow', 'fe51_refines', 'fe51_no_single_relation', 'refines_is_TL', 'ladder_any_field_TL', 'x25519_fe51_eq_ref10', 'x25519_fe51_eq_rfc7748', 'x25519_fe51_clamp', 'x25519_fe51_general', 'fe51_eq_spec_ladder'], "Sodium.C05Fe51")
+IMPORTS = IMPORTS + ["SodiumModel.Properties.C05Ladder", "SodiumModel.Properties.C05Fe51"]
 TABLES = ['x25519_blocklist_eq']      # Tie B: kernel-checked `table regenerated from the source = model table`
 RULE = ("random (scalar, point) pairs; the low-order / non-canonical u-coordinates (0, 1, the two order-8 points, p-1, p, p+1) with either top bit; u in p-k..p+k and "
         "2^255-k..2^255-1; scalars covering all 32 clamp-bit patterns; limb-structured field elements (all-ones 51-bit and 25.5-bit limbs); key exchange: both sides computed "
@@ -203,3 +204,70 @@ def predicate(ctx, line, impl, model):
             return True, "independent RFC 7748 ladder (Python big integers): expected %s" % want
         return False, "agrees with the independent ladder"
     return True, "implementation output differs from the model (= executable specification)"
+
+
+def MODEL_RUN(ctx, lines):
+    return vcore.run_model_parallel(ctx, lines)     # every X25519 op runs the 51-bit limb model (~13 ms each)
+
+
+def extra(ctx, rng):
+    """bulk cross-backend differential: 10^5..10^6 pseudo-random (scalar, point) pairs through each ladder implementation (AVX assembly,
+    ref10 with 51-bit limbs, ref10 with 25.5-bit limbs); digests must agree; a difference is bisected to one pair, which the model (= RFC 7748)
+    then decides. This reaches defects of probability ~10^-5 per pair that the few thousand model-compared ops cannot."""
+    import time
+    total = 1200000 if ctx.tier == "quick" else 12000000
+    seed = rng.getrandbits(40)
+    cfgs = [("native", "", "plain"), ("native", "avx512f,avx2,avx1", "plain"), ("noti", "", "plain")]
+    chunk = 50000
+    lines = ["bulk.x25519 %d %d %d" % (seed, lo, min(lo + chunk, total)) for lo in range(0, total, chunk)]
+    outs = {}
+    t = time.time()
+    from concurrent.futures import ThreadPoolExecutor
+    for cfg in cfgs:
+        vcore.build_hx(ctx, cfg[0], cfg[2])
+    nsplit = 5
+    jobs = [(cfg, j) for cfg in cfgs for j in range(nsplit)]
+    def run(job):
+        cfg, j = job
+        exe = vcore.build_hx(ctx, cfg[0], cfg[2])
+        sub = lines[j::nsplit]
+        o, cr = vcore.run_impl(ctx, exe, sub, cfg[1])
+        if cr:
+            raise vcore.BrokenCheck("bulk x25519 run failed on %s: %s" % (cfg, cr))
+        return o
+    with ThreadPoolExecutor(max_workers=15) as ex:
+        res = list(ex.map(run, jobs))
+    for cfg in cfgs:
+        o = [None] * len(lines)
+        for (c2, j), r in zip(jobs, res):
+            if c2 == cfg:
+                for idx, v in zip(range(j, len(lines), nsplit), r):
+                    o[idx] = v
+        outs[cfg] = o
+    ctx.evaluations += total * len(cfgs)
+    ctx.stats["bulk_cross_backend_pairs"] = total
+    ctx.configs_run.append({"bulk_x25519_pairs": total, "configs": ["%s/%s" % (c[0], c[1] or "none") for c in cfgs], "wall_s": round(time.time() - t, 1)})
+    ref = outs[cfgs[1]]
+    for cfg in cfgs:
+        for k, (a, b) in enumerate(zip(outs[cfg], ref)):
+            if a == b:
+                continue
+            lo, hi = k * chunk, min((k + 1) * chunk, total)
+            ea, eb = vcore.build_hx(ctx, cfg[0], cfg[2]), vcore.build_hx(ctx, cfgs[1][0], cfgs[1][2])
+            while hi - lo > 1:
+                mid = (lo + hi) // 2
+                l1 = ["bulk.x25519 %d %d %d" % (seed, lo, mid)]
+                if vcore.run_impl(ctx, ea, l1, cfg[1])[0] != vcore.run_impl(ctx, eb, l1, cfgs[1][1])[0]:
+                    hi = mid
+                else:
+                    lo = mid
+            pair = vcore.run_impl(ctx, ea, ["bulk.x25519.pair %d %d" % (seed, lo)], cfg[1])[0][0]
+            op = "x25519 " + pair
+            m = vcore.run_model(ctx, [op])[0]
+            ia = vcore.run_impl(ctx, ea, [op], cfg[1])[0][0]
+            ib = vcore.run_impl(ctx, eb, [op], cfgs[1][1])[0][0]
+            bad = cfg if ia != m else cfgs[1]
+            vcore.report(ctx, "corr:x25519", {"op": op, "variant": bad[0], "mask": bad[1], "flavour": "plain", "model": m, "impl": ia if ia != m else ib,
+                                              "explanation": "two ladder implementations disagree on this pair (found by the bulk cross-backend run, pair %d of seed %d); the model (= RFC 7748) decides which one is wrong" % (lo, seed)})
+            return
+    ctx.log("bulk cross-backend X25519: %d pairs x %d ladders agree (%.0fs)" % (total, len(cfgs), time.time() - t))
